@@ -31,6 +31,8 @@ PARAMETRISED = ['raytracing@rel0.5', 'raytracing@abs2', 'raytracing@rel1.0']
 
 def build_obs(name, area, via_visibility=False):
     """observation function through the real factory"""
+    if name == 'custom_cone':
+        return observation_fs.factory('from_visibility', area=area, visibility_function=ConeVisibility())
     if '@' in name:  # parametrised visibility, e.g. raytracing@rel0.5 / raytracing@abs2
         base, par = name.split('@')
         kw = ({'absolute_counts': False, 'threshold': float(par[3:])} if par.startswith('rel')
@@ -151,3 +153,44 @@ def history_state(rng, hmax=7, wmax=7):
 def rebuilt(state):
     """freshly constructed deep copy (through JSON): carries no history"""
     return enc.state_from_json(enc.state_to_json(state))
+
+
+class ConeVisibility:
+    """a user-defined, deterministic, egocentric visibility function (cf. examples/conic_visibility.py) that keeps one mask
+    per view shape and returns that same array on every call - callers must not modify it"""
+
+    def __init__(self):
+        self.masks = {}
+
+    def __call__(self, grid, position, *, rng=None):
+        import numpy as np
+        key = (grid.shape.height, grid.shape.width, position.y, position.x)
+        if key not in self.masks:
+            h, w = grid.shape.height, grid.shape.width
+            m = np.zeros((h, w), dtype=bool)
+            for y in range(h):
+                for x in range(w):
+                    m[y, x] = abs(x - position.x) <= abs(position.y - y)
+            self.masks[key] = m
+            self.pristine = getattr(self, 'pristine', {})
+            self.pristine[key] = m.copy()
+        return self.masks[key]
+
+    def intact(self):
+        import numpy as np
+        return all(np.array_equal(self.masks[k], self.pristine[k]) for k in self.masks)
+
+
+def rand_area_excluding_origin(rng, maxext=4):
+    """a view area that does not contain the agent's own cell (a look-ahead / rear / side window)"""
+    while True:
+        ymin = rng.randint(-maxext, maxext)
+        ymax = ymin + rng.randint(0, 3)
+        xmin = rng.randint(-maxext, maxext)
+        xmax = xmin + rng.randint(0, 3)
+        if not (ymin <= 0 <= ymax and xmin <= 0 <= xmax):
+            return Area((ymin, ymax), (xmin, xmax))
+
+
+LARGE_AREAS = [((-14, 0), (-7, 7)), ((-6, 0), (-15, 15)), ((-30, 0), (-3, 3)), ((-16, 0), (-8, 8)), ((-7, 7), (-7, 7)),
+               ((-15, 0), (0, 15))]
